@@ -74,9 +74,13 @@ def exec_for(I, node, env):
     fn = getattr(env, 'func_node', None)
     spec = None
     if fn is not None:
-        header = f'for {ast.unparse(node.target)} in {ast.unparse(node.iter)}'
-        same = [n for n in ast.walk(fn) if isinstance(n, ast.For) and
-                f'for {ast.unparse(n.target)} in {ast.unparse(n.iter)}' == header]
+        def _hdr(n):
+            t = ast.unparse(n.target)
+            if isinstance(n.target, ast.Tuple) and t.startswith('(') and t.endswith(')'):
+                t = t[1:-1]         # `for key, rows in xs` as written
+            return f'for {t} in {ast.unparse(n.iter)}'
+        header = _hdr(node)
+        same = [n for n in ast.walk(fn) if isinstance(n, ast.For) and _hdr(n) == header]
         same.sort(key=lambda n: (n.lineno, n.col_offset))
         occ = same.index(node) + 1          # 'header#2': the second loop with this header text
         spec = I.loop_specs.get((env.qual, f'{header}#{occ}')) or I.loop_specs.get((env.qual, header)) or \
@@ -235,7 +239,7 @@ def invariant_loop(I, node, env, src, spec):
     for name, sort in spec.havoc.items():
         if not _is_live(name, env):
             continue        # a local that exists on some paths only (e.g. `if flag: duplicates = {}`)
-        if sort in ('symdict', 'symset', 'symlist', 'list_of_symlist'):
+        if sort in ('symdict', 'symset', 'symlist', 'list_of_symlist', 'symkeylist', 'symmap'):
             symcoll.havoc(env.lookup(name), name)       # in place: bound-method aliases keep pointing at it
         else:
             env.vars[name] = fresh_of_sort(I, sort, name)
